@@ -79,6 +79,8 @@ class _Shutil:
         self._sim.moves.append(norm(dst))
         if self._sim.stamp_moves:
             self._sim.stamp(dst)
+        if self._sim.on_move is not None:
+            self._sim.on_move(dst)  # e.g. lambda p: (sim.advance(1), sim.stamp(p)): a compile that straddles a second
         return r
 
     def __getattr__(self, name):
@@ -88,8 +90,9 @@ class _Shutil:
 class Sim:
     """Simulated clock with whole-second steps + helpers; a context manager that installs the patches."""
 
-    def __init__(self, start=START, stamp_moves=True):
+    def __init__(self, start=START, stamp_moves=True, on_move=None):
         self.now = int(start)
+        self.on_move = on_move
         self._ticks = itertools.count(1)
         self.unreadable = set()  # normalised paths
         self.moves = []  # destinations of every shutil.move mako made (module files written)
